@@ -49,7 +49,7 @@ fn gen_reused(t: &mut Tape) -> Scenario {
     } else {
         let props = gen::draw_props(t, false);
         let dict = [1u64, 16, 64, 4096, 1 << 16][t.below(5) as usize];
-        RawSpec { lc: props.lc, lp: props.lp, pb: props.pb, dict: dict as u32, size: None }.store(&mut sc);
+        RawSpec { lc: props.lc, lp: props.lp, pb: props.pb, dict: dict as u32, size: None, pre: None }.store(&mut sc);
         let cfg = gen::draw_cfg(t);
         let last_marker = t.below(2) == 1;
         for i in 0..n {
@@ -259,6 +259,7 @@ fn gen(t: &mut Tape, _tier: Tier) -> Scenario {
                 pb: b.props.pb,
                 dict: dict as u32,
                 size: Some(b.expect.len() as u64),
+                pre: None,
             };
             input = b.payload;
             payload_len = input.len();
